@@ -28,6 +28,24 @@ C02/Proofs.vos C02/Proofs.vok C02/Proofs.required_vos: C02/Proofs.v Common/Ops.v
 C02/Properties.vo C02/Properties.glob C02/Properties.v.beautified C02/Properties.required_vo: C02/Properties.v Common/Ops.vo Common/Vec.vo Common/VecLemmas.vo C07/Model.vo C07/Proofs.vo C01/Model.vo C01/Proofs.vo C02/Model.vo C02/Proofs.vo
 C02/Properties.vio: C02/Properties.v Common/Ops.vio Common/Vec.vio Common/VecLemmas.vio C07/Model.vio C07/Proofs.vio C01/Model.vio C01/Proofs.vio C02/Model.vio C02/Proofs.vio
 C02/Properties.vos C02/Properties.vok C02/Properties.required_vos: C02/Properties.v Common/Ops.vos Common/Vec.vos Common/VecLemmas.vos C07/Model.vos C07/Proofs.vos C01/Model.vos C01/Proofs.vos C02/Model.vos C02/Proofs.vos
+C03/Corr.vo C03/Corr.glob C03/Corr.v.beautified C03/Corr.required_vo: C03/Corr.v Common/Ops.vo Common/Vec.vo Common/Out.vo C07/Model.vo C07/Corr.vo C01/Model.vo C01/Corr.vo C02/Model.vo C03/Model.vo
+C03/Corr.vio: C03/Corr.v Common/Ops.vio Common/Vec.vio Common/Out.vio C07/Model.vio C07/Corr.vio C01/Model.vio C01/Corr.vio C02/Model.vio C03/Model.vio
+C03/Corr.vos C03/Corr.vok C03/Corr.required_vos: C03/Corr.v Common/Ops.vos Common/Vec.vos Common/Out.vos C07/Model.vos C07/Corr.vos C01/Model.vos C01/Corr.vos C02/Model.vos C03/Model.vos
+C03/Examples.vo C03/Examples.glob C03/Examples.v.beautified C03/Examples.required_vo: C03/Examples.v Common/Ops.vo Common/Vec.vo Common/VecLemmas.vo C07/Model.vo C07/Proofs.vo C01/Model.vo C01/Proofs.vo C02/Model.vo C02/Proofs.vo C03/Model.vo C03/ProofsStore.vo C03/Proofs.vo C05/Model.vo
+C03/Examples.vio: C03/Examples.v Common/Ops.vio Common/Vec.vio Common/VecLemmas.vio C07/Model.vio C07/Proofs.vio C01/Model.vio C01/Proofs.vio C02/Model.vio C02/Proofs.vio C03/Model.vio C03/ProofsStore.vio C03/Proofs.vio C05/Model.vio
+C03/Examples.vos C03/Examples.vok C03/Examples.required_vos: C03/Examples.v Common/Ops.vos Common/Vec.vos Common/VecLemmas.vos C07/Model.vos C07/Proofs.vos C01/Model.vos C01/Proofs.vos C02/Model.vos C02/Proofs.vos C03/Model.vos C03/ProofsStore.vos C03/Proofs.vos C05/Model.vos
+C03/Model.vo C03/Model.glob C03/Model.v.beautified C03/Model.required_vo: C03/Model.v Common/Ops.vo Common/Vec.vo C07/Model.vo C01/Model.vo C02/Model.vo C05/Model.vo
+C03/Model.vio: C03/Model.v Common/Ops.vio Common/Vec.vio C07/Model.vio C01/Model.vio C02/Model.vio C05/Model.vio
+C03/Model.vos C03/Model.vok C03/Model.required_vos: C03/Model.v Common/Ops.vos Common/Vec.vos C07/Model.vos C01/Model.vos C02/Model.vos C05/Model.vos
+C03/Proofs.vo C03/Proofs.glob C03/Proofs.v.beautified C03/Proofs.required_vo: C03/Proofs.v Common/Ops.vo Common/Vec.vo Common/VecLemmas.vo C07/Model.vo C07/Proofs.vo C01/Model.vo C01/Proofs.vo C02/Model.vo C02/Proofs.vo C03/Model.vo C05/Model.vo C05/Proofs.vo
+C03/Proofs.vio: C03/Proofs.v Common/Ops.vio Common/Vec.vio Common/VecLemmas.vio C07/Model.vio C07/Proofs.vio C01/Model.vio C01/Proofs.vio C02/Model.vio C02/Proofs.vio C03/Model.vio C05/Model.vio C05/Proofs.vio
+C03/Proofs.vos C03/Proofs.vok C03/Proofs.required_vos: C03/Proofs.v Common/Ops.vos Common/Vec.vos Common/VecLemmas.vos C07/Model.vos C07/Proofs.vos C01/Model.vos C01/Proofs.vos C02/Model.vos C02/Proofs.vos C03/Model.vos C05/Model.vos C05/Proofs.vos
+C03/ProofsStore.vo C03/ProofsStore.glob C03/ProofsStore.v.beautified C03/ProofsStore.required_vo: C03/ProofsStore.v C03/Model.vo
+C03/ProofsStore.vio: C03/ProofsStore.v C03/Model.vio
+C03/ProofsStore.vos C03/ProofsStore.vok C03/ProofsStore.required_vos: C03/ProofsStore.v C03/Model.vos
+C03/Properties.vo C03/Properties.glob C03/Properties.v.beautified C03/Properties.required_vo: C03/Properties.v Common/Ops.vo Common/Vec.vo Common/VecLemmas.vo C07/Model.vo C07/Proofs.vo C01/Model.vo C01/Proofs.vo C02/Model.vo C02/Proofs.vo C03/Model.vo C03/ProofsStore.vo C03/Proofs.vo C05/Model.vo
+C03/Properties.vio: C03/Properties.v Common/Ops.vio Common/Vec.vio Common/VecLemmas.vio C07/Model.vio C07/Proofs.vio C01/Model.vio C01/Proofs.vio C02/Model.vio C02/Proofs.vio C03/Model.vio C03/ProofsStore.vio C03/Proofs.vio C05/Model.vio
+C03/Properties.vos C03/Properties.vok C03/Properties.required_vos: C03/Properties.v Common/Ops.vos Common/Vec.vos Common/VecLemmas.vos C07/Model.vos C07/Proofs.vos C01/Model.vos C01/Proofs.vos C02/Model.vos C02/Proofs.vos C03/Model.vos C03/ProofsStore.vos C03/Proofs.vos C05/Model.vos
 C04/Corr.vo C04/Corr.glob C04/Corr.v.beautified C04/Corr.required_vo: C04/Corr.v Common/Ops.vo Common/Vec.vo Common/Out.vo C04/Model.vo
 C04/Corr.vio: C04/Corr.v Common/Ops.vio Common/Vec.vio Common/Out.vio C04/Model.vio
 C04/Corr.vos C04/Corr.vok C04/Corr.required_vos: C04/Corr.v Common/Ops.vos Common/Vec.vos Common/Out.vos C04/Model.vos
@@ -115,6 +133,57 @@ C08/Proofs.vos C08/Proofs.vok C08/Proofs.required_vos: C08/Proofs.v Common/Ops.v
 C08/Properties.vo C08/Properties.glob C08/Properties.v.beautified C08/Properties.required_vo: C08/Properties.v Common/Ops.vo Common/Vec.vo Common/VecLemmas.vo C07/Model.vo C08/Model.vo C08/Proofs.vo
 C08/Properties.vio: C08/Properties.v Common/Ops.vio Common/Vec.vio Common/VecLemmas.vio C07/Model.vio C08/Model.vio C08/Proofs.vio
 C08/Properties.vos C08/Properties.vok C08/Properties.required_vos: C08/Properties.v Common/Ops.vos Common/Vec.vos Common/VecLemmas.vos C07/Model.vos C08/Model.vos C08/Proofs.vos
+C09/Corr.vo C09/Corr.glob C09/Corr.v.beautified C09/Corr.required_vo: C09/Corr.v C09/Model.vo
+C09/Corr.vio: C09/Corr.v C09/Model.vio
+C09/Corr.vos C09/Corr.vok C09/Corr.required_vos: C09/Corr.v C09/Model.vos
+C09/Examples.vo C09/Examples.glob C09/Examples.v.beautified C09/Examples.required_vo: C09/Examples.v C09/Model.vo C09/Proofs.vo C09/ProofsC.vo
+C09/Examples.vio: C09/Examples.v C09/Model.vio C09/Proofs.vio C09/ProofsC.vio
+C09/Examples.vos C09/Examples.vok C09/Examples.required_vos: C09/Examples.v C09/Model.vos C09/Proofs.vos C09/ProofsC.vos
+C09/Model.vo C09/Model.glob C09/Model.v.beautified C09/Model.required_vo: C09/Model.v 
+C09/Model.vio: C09/Model.v 
+C09/Model.vos C09/Model.vok C09/Model.required_vos: C09/Model.v 
+C09/Proofs.vo C09/Proofs.glob C09/Proofs.v.beautified C09/Proofs.required_vo: C09/Proofs.v C09/Model.vo
+C09/Proofs.vio: C09/Proofs.v C09/Model.vio
+C09/Proofs.vos C09/Proofs.vok C09/Proofs.required_vos: C09/Proofs.v C09/Model.vos
+C09/ProofsC.vo C09/ProofsC.glob C09/ProofsC.v.beautified C09/ProofsC.required_vo: C09/ProofsC.v C09/Model.vo
+C09/ProofsC.vio: C09/ProofsC.v C09/Model.vio
+C09/ProofsC.vos C09/ProofsC.vok C09/ProofsC.required_vos: C09/ProofsC.v C09/Model.vos
+C09/Properties.vo C09/Properties.glob C09/Properties.v.beautified C09/Properties.required_vo: C09/Properties.v C09/Model.vo C09/Proofs.vo C09/ProofsC.vo
+C09/Properties.vio: C09/Properties.v C09/Model.vio C09/Proofs.vio C09/ProofsC.vio
+C09/Properties.vos C09/Properties.vok C09/Properties.required_vos: C09/Properties.v C09/Model.vos C09/Proofs.vos C09/ProofsC.vos
+C11/Corr.vo C11/Corr.glob C11/Corr.v.beautified C11/Corr.required_vo: C11/Corr.v Common/Ops.vo Common/Vec.vo Common/Out.vo C07/Model.vo C11/Model.vo
+C11/Corr.vio: C11/Corr.v Common/Ops.vio Common/Vec.vio Common/Out.vio C07/Model.vio C11/Model.vio
+C11/Corr.vos C11/Corr.vok C11/Corr.required_vos: C11/Corr.v Common/Ops.vos Common/Vec.vos Common/Out.vos C07/Model.vos C11/Model.vos
+C11/Examples.vo C11/Examples.glob C11/Examples.v.beautified C11/Examples.required_vo: C11/Examples.v Common/Ops.vo Common/Vec.vo C07/Model.vo C11/Model.vo C11/Proofs.vo
+C11/Examples.vio: C11/Examples.v Common/Ops.vio Common/Vec.vio C07/Model.vio C11/Model.vio C11/Proofs.vio
+C11/Examples.vos C11/Examples.vok C11/Examples.required_vos: C11/Examples.v Common/Ops.vos Common/Vec.vos C07/Model.vos C11/Model.vos C11/Proofs.vos
+C11/Model.vo C11/Model.glob C11/Model.v.beautified C11/Model.required_vo: C11/Model.v Common/Ops.vo Common/Vec.vo C07/Model.vo
+C11/Model.vio: C11/Model.v Common/Ops.vio Common/Vec.vio C07/Model.vio
+C11/Model.vos C11/Model.vok C11/Model.required_vos: C11/Model.v Common/Ops.vos Common/Vec.vos C07/Model.vos
+C11/Proofs.vo C11/Proofs.glob C11/Proofs.v.beautified C11/Proofs.required_vo: C11/Proofs.v Common/Ops.vo Common/Vec.vo Common/VecLemmas.vo C07/Model.vo C11/Model.vo
+C11/Proofs.vio: C11/Proofs.v Common/Ops.vio Common/Vec.vio Common/VecLemmas.vio C07/Model.vio C11/Model.vio
+C11/Proofs.vos C11/Proofs.vok C11/Proofs.required_vos: C11/Proofs.v Common/Ops.vos Common/Vec.vos Common/VecLemmas.vos C07/Model.vos C11/Model.vos
+C11/Properties.vo C11/Properties.glob C11/Properties.v.beautified C11/Properties.required_vo: C11/Properties.v Common/Ops.vo Common/Vec.vo C11/Model.vo C11/Proofs.vo
+C11/Properties.vio: C11/Properties.v Common/Ops.vio Common/Vec.vio C11/Model.vio C11/Proofs.vio
+C11/Properties.vos C11/Properties.vok C11/Properties.required_vos: C11/Properties.v Common/Ops.vos Common/Vec.vos C11/Model.vos C11/Proofs.vos
+C12/Corr.vo C12/Corr.glob C12/Corr.v.beautified C12/Corr.required_vo: C12/Corr.v Common/Ops.vo Common/Vec.vo Common/Out.vo C12/Model.vo
+C12/Corr.vio: C12/Corr.v Common/Ops.vio Common/Vec.vio Common/Out.vio C12/Model.vio
+C12/Corr.vos C12/Corr.vok C12/Corr.required_vos: C12/Corr.v Common/Ops.vos Common/Vec.vos Common/Out.vos C12/Model.vos
+C12/Examples.vo C12/Examples.glob C12/Examples.v.beautified C12/Examples.required_vo: C12/Examples.v Common/Ops.vo Common/Vec.vo Common/VecLemmas.vo C12/Model.vo C12/Proofs.vo
+C12/Examples.vio: C12/Examples.v Common/Ops.vio Common/Vec.vio Common/VecLemmas.vio C12/Model.vio C12/Proofs.vio
+C12/Examples.vos C12/Examples.vok C12/Examples.required_vos: C12/Examples.v Common/Ops.vos Common/Vec.vos Common/VecLemmas.vos C12/Model.vos C12/Proofs.vos
+C12/Hom.vo C12/Hom.glob C12/Hom.v.beautified C12/Hom.required_vo: C12/Hom.v Common/Ops.vo Common/Vec.vo C12/Model.vo C12/Proofs.vo
+C12/Hom.vio: C12/Hom.v Common/Ops.vio Common/Vec.vio C12/Model.vio C12/Proofs.vio
+C12/Hom.vos C12/Hom.vok C12/Hom.required_vos: C12/Hom.v Common/Ops.vos Common/Vec.vos C12/Model.vos C12/Proofs.vos
+C12/Model.vo C12/Model.glob C12/Model.v.beautified C12/Model.required_vo: C12/Model.v Common/Ops.vo Common/Vec.vo
+C12/Model.vio: C12/Model.v Common/Ops.vio Common/Vec.vio
+C12/Model.vos C12/Model.vok C12/Model.required_vos: C12/Model.v Common/Ops.vos Common/Vec.vos
+C12/Proofs.vo C12/Proofs.glob C12/Proofs.v.beautified C12/Proofs.required_vo: C12/Proofs.v Common/Ops.vo Common/Vec.vo Common/VecLemmas.vo C12/Model.vo
+C12/Proofs.vio: C12/Proofs.v Common/Ops.vio Common/Vec.vio Common/VecLemmas.vio C12/Model.vio
+C12/Proofs.vos C12/Proofs.vok C12/Proofs.required_vos: C12/Proofs.v Common/Ops.vos Common/Vec.vos Common/VecLemmas.vos C12/Model.vos
+C12/Properties.vo C12/Properties.glob C12/Properties.v.beautified C12/Properties.required_vo: C12/Properties.v Common/Ops.vo Common/Vec.vo Common/VecLemmas.vo C12/Model.vo C12/Proofs.vo C12/Hom.vo
+C12/Properties.vio: C12/Properties.v Common/Ops.vio Common/Vec.vio Common/VecLemmas.vio C12/Model.vio C12/Proofs.vio C12/Hom.vio
+C12/Properties.vos C12/Properties.vok C12/Properties.required_vos: C12/Properties.v Common/Ops.vos Common/Vec.vos Common/VecLemmas.vos C12/Model.vos C12/Proofs.vos C12/Hom.vos
 C13/Bridge.vo C13/Bridge.glob C13/Bridge.v.beautified C13/Bridge.required_vo: C13/Bridge.v Common/Ops.vo Common/Vec.vo C13/Model.vo
 C13/Bridge.vio: C13/Bridge.v Common/Ops.vio Common/Vec.vio C13/Model.vio
 C13/Bridge.vos C13/Bridge.vok C13/Bridge.required_vos: C13/Bridge.v Common/Ops.vos Common/Vec.vos C13/Model.vos
@@ -187,6 +256,30 @@ C15/Proofs.vos C15/Proofs.vok C15/Proofs.required_vos: C15/Proofs.v Common/Ops.v
 C15/Properties.vo C15/Properties.glob C15/Properties.v.beautified C15/Properties.required_vo: C15/Properties.v Common/Ops.vo Common/Vec.vo C15/Model.vo C15/Proofs.vo C15/Bisection.vo C15/Analysis.vo C15/Geometry.vo C15/Capacitance.vo
 C15/Properties.vio: C15/Properties.v Common/Ops.vio Common/Vec.vio C15/Model.vio C15/Proofs.vio C15/Bisection.vio C15/Analysis.vio C15/Geometry.vio C15/Capacitance.vio
 C15/Properties.vos C15/Properties.vok C15/Properties.required_vos: C15/Properties.v Common/Ops.vos Common/Vec.vos C15/Model.vos C15/Proofs.vos C15/Bisection.vos C15/Analysis.vos C15/Geometry.vos C15/Capacitance.vos
+C16/Bohm2.vo C16/Bohm2.glob C16/Bohm2.v.beautified C16/Bohm2.required_vo: C16/Bohm2.v Common/Ops.vo Common/Vec.vo C16/Model.vo C16/Proofs.vo
+C16/Bohm2.vio: C16/Bohm2.v Common/Ops.vio Common/Vec.vio C16/Model.vio C16/Proofs.vio
+C16/Bohm2.vos C16/Bohm2.vok C16/Bohm2.required_vos: C16/Bohm2.v Common/Ops.vos Common/Vec.vos C16/Model.vos C16/Proofs.vos
+C16/Corr.vo C16/Corr.glob C16/Corr.v.beautified C16/Corr.required_vo: C16/Corr.v Common/Ops.vo Common/Vec.vo C16/Model.vo
+C16/Corr.vio: C16/Corr.v Common/Ops.vio Common/Vec.vio C16/Model.vio
+C16/Corr.vos C16/Corr.vok C16/Corr.required_vos: C16/Corr.v Common/Ops.vos Common/Vec.vos C16/Model.vos
+C16/Examples.vo C16/Examples.glob C16/Examples.v.beautified C16/Examples.required_vo: C16/Examples.v Common/Ops.vo Common/Vec.vo C16/Model.vo C16/Proofs.vo C16/Isotropic.vo
+C16/Examples.vio: C16/Examples.v Common/Ops.vio Common/Vec.vio C16/Model.vio C16/Proofs.vio C16/Isotropic.vio
+C16/Examples.vos C16/Examples.vok C16/Examples.required_vos: C16/Examples.v Common/Ops.vos Common/Vec.vos C16/Model.vos C16/Proofs.vos C16/Isotropic.vos
+C16/Isotropic.vo C16/Isotropic.glob C16/Isotropic.v.beautified C16/Isotropic.required_vo: C16/Isotropic.v Common/Ops.vo Common/Vec.vo C16/Model.vo C16/Proofs.vo
+C16/Isotropic.vio: C16/Isotropic.v Common/Ops.vio Common/Vec.vio C16/Model.vio C16/Proofs.vio
+C16/Isotropic.vos C16/Isotropic.vok C16/Isotropic.required_vos: C16/Isotropic.v Common/Ops.vos Common/Vec.vos C16/Model.vos C16/Proofs.vos
+C16/Model.vo C16/Model.glob C16/Model.v.beautified C16/Model.required_vo: C16/Model.v Common/Ops.vo Common/Vec.vo
+C16/Model.vio: C16/Model.v Common/Ops.vio Common/Vec.vio
+C16/Model.vos C16/Model.vok C16/Model.required_vos: C16/Model.v Common/Ops.vos Common/Vec.vos
+C16/Proofs.vo C16/Proofs.glob C16/Proofs.v.beautified C16/Proofs.required_vo: C16/Proofs.v Common/Ops.vo Common/Vec.vo C16/Model.vo
+C16/Proofs.vio: C16/Proofs.v Common/Ops.vio Common/Vec.vio C16/Model.vio
+C16/Proofs.vos C16/Proofs.vok C16/Proofs.required_vos: C16/Proofs.v Common/Ops.vos Common/Vec.vos C16/Model.vos
+C16/Properties.vo C16/Properties.glob C16/Properties.v.beautified C16/Properties.required_vo: C16/Properties.v Common/Ops.vo Common/Vec.vo C16/Model.vo C16/Proofs.vo
+C16/Properties.vio: C16/Properties.v Common/Ops.vio Common/Vec.vio C16/Model.vio C16/Proofs.vio
+C16/Properties.vos C16/Properties.vok C16/Properties.required_vos: C16/Properties.v Common/Ops.vos Common/Vec.vos C16/Model.vos C16/Proofs.vos
+C16/PropertiesExt.vo C16/PropertiesExt.glob C16/PropertiesExt.v.beautified C16/PropertiesExt.required_vo: C16/PropertiesExt.v Common/Ops.vo Common/Vec.vo C16/Model.vo C16/Proofs.vo C16/Isotropic.vo C16/Bohm2.vo
+C16/PropertiesExt.vio: C16/PropertiesExt.v Common/Ops.vio Common/Vec.vio C16/Model.vio C16/Proofs.vio C16/Isotropic.vio C16/Bohm2.vio
+C16/PropertiesExt.vos C16/PropertiesExt.vok C16/PropertiesExt.required_vos: C16/PropertiesExt.v Common/Ops.vos Common/Vec.vos C16/Model.vos C16/Proofs.vos C16/Isotropic.vos C16/Bohm2.vos
 C17/Corr.vo C17/Corr.glob C17/Corr.v.beautified C17/Corr.required_vo: C17/Corr.v Common/Ops.vo Common/Vec.vo Common/Out.vo C17/Model.vo
 C17/Corr.vio: C17/Corr.v Common/Ops.vio Common/Vec.vio Common/Out.vio C17/Model.vio
 C17/Corr.vos C17/Corr.vok C17/Corr.required_vos: C17/Corr.v Common/Ops.vos Common/Vec.vos Common/Out.vos C17/Model.vos
